@@ -60,15 +60,22 @@ def do_import(src, sid, confirm_res=None):
     print('imported', sid)
 
 
-def detect_one(sid, props=None):
-    d = os.path.join(VERIF, 'seeded', sid)
+def detect_one(sid, props=None, base='seeded'):
+    d = os.path.join(VERIF, base, sid)
     meta = json.load(open(os.path.join(d, 'meta.json')))
     pid = meta['property']
     tmp = tempfile.mkdtemp(prefix='zmq-seeded-', dir='/var/tmp')
     wt = os.path.join(tmp, 'repo')
     out = {'id': sid, 'property': pid, 'checks': {}}
     try:
-        subprocess.run(['git', '-C', '/repo', 'worktree', 'add', '-q', '--detach', wt, 'HEAD'], check=True, capture_output=True)
+        for attempt in range(8):
+            # concurrent `git worktree add` calls contend for a lock in /repo/.git: retry
+            wr = subprocess.run(['git', '-C', '/repo', 'worktree', 'add', '-q', '--detach', wt, 'HEAD'], capture_output=True)
+            if wr.returncode == 0:
+                break
+            time.sleep(0.5 + attempt)
+        else:
+            raise RuntimeError('git worktree add failed: ' + wr.stderr.decode()[:300])
         c, o = sh('git apply %s/patch.diff' % d, wt)
         if c:
             out['error'] = 'patch does not apply to /repo HEAD: ' + o[-300:]
@@ -99,6 +106,32 @@ def main(a):
     if a[0] == 'import':
         cr = json.load(open(a[3])) if len(a) > 3 else None
         do_import(a[1], a[2], cr); return 0
+    if a[0] == 'import-harmless':
+        # tools/seeded.py import-harmless /tmp/seed_C07/SEED_OUT/H1 C07-H1
+        dst = os.path.join(VERIF, 'seeded_harmless', a[2])
+        os.makedirs(dst, exist_ok=True)
+        for f in ('patch.diff', 'meta.json'):
+            shutil.copy(os.path.join(a[1], f), os.path.join(dst, f))
+        print('imported', a[2]); return 0
+    if a[0] == 'harmless':
+        # behaviour-preserving edits: run EVERY claimed property's quick check on each; exit 1 anywhere is a false alarm
+        base = os.path.join(VERIF, 'seeded_harmless')
+        ids = a[1:] or sorted(os.listdir(base))
+        ids = [i for i in ids if os.path.isdir(os.path.join(base, i))]
+        bad = 0
+        with cf.ThreadPoolExecutor(max_workers=int(os.environ.get('SEEDED_JOBS', '3'))) as ex:
+            for r in ex.map(lambda i: detect_one(i, ALL, 'seeded_harmless'), ids):
+                codes = {p: v['exit'] for p, v in r.get('checks', {}).items()}
+                r['false_alarm'] = [p for p, c in codes.items() if c == 1]
+                r['undecided'] = [p for p, c in codes.items() if c == 2]
+                r.pop('detected', None); r.pop('detected_by', None)
+                json.dump(r, open(os.path.join(base, r['id'], 'result.json'), 'w'), indent=1)
+                bad += len(r['false_alarm'])
+                print('%-8s own=%s FALSE-ALARM=%s undecided=%s %s' % (r['id'], r['property'], r['false_alarm'], r['undecided'], r.get('error', '')), flush=True)
+                for p in r['false_alarm']:
+                    for l in r['checks'][p]['lines'][:3]:
+                        print('      ', p, l[:260])
+        return 1 if bad else 0
     if a[0] == 'detect':
         ids = a[1:] or sorted(os.listdir(os.path.join(VERIF, 'seeded')))
         ids = [i for i in ids if os.path.isdir(os.path.join(VERIF, 'seeded', i))]
